@@ -137,12 +137,77 @@ func ruleKeyPaths(r *Report) {
 			}
 			if !as["haskey"] {
 				// nothing happens and errNoKey is returned
-				isNoKey := false
-				if g, isLd := norm(retVal(ret)).(*ssa.UnOp); isLd {
-					if gl, isG := g.X.(*ssa.Global); isG && gl.Name() == "errNoKey" {
-						isNoKey = true
+				// errNoKey itself, or an error built from it (wrapped with %w, annotated by a helper)
+				isNoKeyGlobal := func(v ssa.Value) bool {
+					g, isLd := v.(*ssa.UnOp)
+					if !isLd {
+						return false
 					}
+					gl, isG := g.X.(*ssa.Global)
+					return isG && gl.Name() == "errNoKey"
 				}
+				var fromNoKey func(v ssa.Value, depth int) bool
+				fromNoKey = func(v ssa.Value, depth int) bool {
+					v = norm(v)
+					if isNoKeyGlobal(v) {
+						return true
+					}
+					cl, isCall := v.(*ssa.Call)
+					if !isCall || depth > 3 {
+						return false
+					}
+					if calleeIs(&cl.Call, "fmt.Errorf") && len(cl.Call.Args) > 0 {
+						// one of the variadic operands is errNoKey (wrapped with %w)
+						if sl, isSl := cl.Call.Args[len(cl.Call.Args)-1].(*ssa.Slice); isSl {
+							if al, isAl := sl.X.(*ssa.Alloc); isAl {
+								for _, ref := range *al.Referrers() {
+									ia, isIA := ref.(*ssa.IndexAddr)
+									if !isIA {
+										continue
+									}
+									for _, r2 := range *ia.Referrers() {
+										if st, isSt := r2.(*ssa.Store); isSt {
+											x := st.Val
+											if mi, isMI := x.(*ssa.MakeInterface); isMI {
+												x = mi.X
+											}
+											if ci, isCI := x.(*ssa.ChangeInterface); isCI {
+												x = ci.X
+											}
+											if isNoKeyGlobal(norm(x)) {
+												return true
+											}
+										}
+									}
+								}
+							}
+						}
+						return false
+					}
+					sc := cl.Call.StaticCallee()
+					if sc == nil || !isHelper(sc) {
+						return false
+					}
+					// every return of the helper, its parameters read as the arguments of this call
+					o := originOf(sc)
+					saved := dynEnv
+					ne := &venv{bind: map[*ssa.Parameter]ssa.Value{}, outer: dynEnv}
+					for j, par := range o.Params {
+						if j < len(cl.Call.Args) {
+							ne.bind[par] = cl.Call.Args[j]
+						}
+					}
+					dynEnv = ne
+					defer func() { dynEnv = saved }()
+					rets := returnsOf(o)
+					for _, rt := range rets {
+						if len(rt.Results) != 1 || !fromNoKey(rt.Results[0], depth+1) {
+							return false
+						}
+					}
+					return len(rets) > 0
+				}
+				isNoKey := fromNoKey(retVal(ret), 0)
 				if len(ev) != 0 || !isNoKey {
 					nokeyOK = false
 				}
